@@ -74,10 +74,12 @@ type TB struct {
 	True   *Term
 	False  *Term
 	nvars  int
+	varsMemo map[int][]int
+	varTerm  map[int]*Term
 }
 
 func NewTB() *TB {
-	tb := &TB{tab: map[termKey]*Term{}}
+	tb := &TB{tab: map[termKey]*Term{}, varsMemo: map[int][]int{}, varTerm: map[int]*Term{}}
 	tb.True = tb.mk(OpConst, 0, nil, nil, nil, 1, "")
 	tb.False = tb.mk(OpConst, 0, nil, nil, nil, 0, "")
 	return tb
